@@ -23,8 +23,8 @@
    that the path tables are always well formed / the candidate stream always sorted (evaluated per molecule: pid_ok). *)
 From Coq Require Import ZArith List Bool Permutation.
 From Model Require Import PyBase Graph Rings RingsFilter RingsGen RingsGenSpec.
-From Gen Require Import RingsConsts RingsPidBody RingsCacheKeys.
-From Proofs Require Import RingsProofs RingsMcb RingsRank RingsExt RingsDim RingsFund RingsMin RingsHorton RingsSizes RingsIso RingsEquiv RingsFilterProofs RingsGenProofs RingsGenWalks RingsMarks RingsConstsProofs RingsCanon RingsRounds RingsPidTie RingsCsetTie RingsCacheTie RingsBfsFuel.
+From Gen Require Import RingsConsts RingsPidBody RingsCacheKeys RingsCanonBody.
+From Proofs Require Import RingsProofs RingsMcb RingsRank RingsExt RingsDim RingsFund RingsMin RingsHorton RingsSizes RingsIso RingsEquiv RingsFilterProofs RingsGenProofs RingsGenWalks RingsMarks RingsConstsProofs RingsCanon RingsRounds RingsPidTie RingsCsetTie RingsCacheTie RingsBfsFuel RingsCacheEdit RingsCacheComps RingsCanonTie RingsArom.
 Import ListNotations.
 Open Scope Z_scope.
 
@@ -805,3 +805,74 @@ Theorem C06_bfs_fuel_example :
   bfs_exhausts 0 [(1, [2; 3]); (2, [1; 3]); (3, [1; 2])] [2; 3] [] [(2, [1; 2]); (3, [1; 3])] [] = true.
 Proof. exact bfs_fuel_example. Qed.
 Print Assumptions C06_bfs_fuel_example.
+
+(* ---- the partial flush after an edit that removes an atom with at most one neighbour (remove_metals: an isolated counter-ion,
+   implicify_hydrogens: a terminal hydrogen), on the connectivity without coordinate bonds; the edit is Proofs.RingsExt.prune ---- *)
+
+(* the kept rings_count stays right *)
+Theorem C06_remove_atom_keeps_rings_count : forall g n ms, gwf g -> In (n, ms) g -> (length ms <= 1)%nat ->
+  rings_count (prune g n ms) = rings_count g.
+Proof. exact remove_atom_keeps_rings_count. Qed.
+Print Assumptions C06_remove_atom_keeps_rings_count.
+
+(* the kept not_special_connectivity never does *)
+Theorem C06_remove_atom_changes_connectivity : forall g n ms, In (n, ms) g -> prune g n ms <> g.
+Proof. exact remove_atom_changes_connectivity. Qed.
+Print Assumptions C06_remove_atom_changes_connectivity.
+
+(* "the cache left by flush_cache(keep_sssr=True) after such an edit is valid" (Proofs.RingsCacheEdit.partial_flush_valid_after_atom_removal)
+   is FALSE for the faithful model of remove_metals: recorded finding stale-after-history:remove_metals:not_special_connectivity,
+   replayed on the real code by the check ... *)
+Theorem C06_partial_flush_valid_after_atom_removal_refuted : ~ partial_flush_valid_after_atom_removal.
+Proof. exact partial_flush_valid_after_atom_removal_refuted. Qed.
+Print Assumptions C06_partial_flush_valid_after_atom_removal_refuted.
+
+(* ... and holds when not_special_connectivity is not in the cache (implicify / explicify_hydrogens drop it since 55af6a9).  What is
+   missing for the full statement: remove_metals must drop the attribute too; sssr / atoms_rings / atoms_rings_sizes are not functions
+   of the graph in the model (set order is an oracle input) and are outside this statement (searched) *)
+Theorem C06_partial_flush_valid_after_atom_removal_partial :
+  forall g n ms (c : cache_t rview), gwf g -> In (n, ms) g -> (length ms <= 1)%nat -> NoDup (map fst c) -> ring_cache_valid g c ->
+  cget rview c nsc_key = None ->
+  ring_cache_valid (prune g n ms) (gen_flush_cache rview true false c).
+Proof. exact partial_flush_valid_after_atom_removal_partial. Qed.
+Print Assumptions C06_partial_flush_valid_after_atom_removal_partial.
+
+(* a component list that is right before an atom leaves / joins is never right afterwards: why the translated flush_cache must (and,
+   by C06_flush_cache_drops_components, does) drop it in remove_metals / implicify_hydrogens / explicify_hydrogens *)
+Theorem C06_components_stale_after_atom_removal : forall g n ms cs, In (n, ms) g -> is_partition g cs -> ~ is_partition (prune g n ms) cs.
+Proof. exact components_stale_after_atom_removal. Qed.
+Print Assumptions C06_components_stale_after_atom_removal.
+
+Theorem C06_components_stale_after_atom_addition : forall g n ms cs, In (n, ms) g -> is_partition (prune g n ms) cs -> ~ is_partition g cs.
+Proof. exact components_stale_after_atom_addition. Qed.
+Print Assumptions C06_components_stale_after_atom_addition.
+
+Theorem C06_components_stale_example :
+  is_partition [(1, []); (2, [3]); (3, [2])] [[1]; [2; 3]] /\ ~ is_partition (prune [(1, []); (2, [3]); (3, [2])] 1 []) [[1]; [2; 3]].
+Proof. exact components_stale_example. Qed.
+Print Assumptions C06_components_stale_example.
+
+(* ---- _canonic_ring and _ring_scissors, translated from the source (Gen.RingsCanonBody, tools/gen_ringscanon.py): the model functions
+   of C06_canonic_ring_canonical / C06_canonical_unique / the selection phase are the translated ones, for every tuple ---- *)
+Theorem C06_canonic_ring_translated : forall ring, gen_canonic_ring ring = canonic_ring ring.
+Proof. exact canonic_ring_translated. Qed.
+Print Assumptions C06_canonic_ring_translated.
+
+Theorem C06_ring_scissors_translated : forall ring n m, gen_ring_scissors ring n m = ring_scissors ring n m.
+Proof. exact ring_scissors_translated. Qed.
+Print Assumptions C06_ring_scissors_translated.
+
+Theorem C06_canonic_translated_example :
+  gen_canonic_ring [5; 3; 9; 1; 7] = Ok [1; 7; 5; 3; 9] /\ gen_canonic_ring [] = Err ValueError /\
+  gen_ring_scissors [4; 2; 6; 8] 6 8 = Ok [6; 2; 4; 8] /\ gen_ring_scissors [4; 2; 6; 8] 5 8 = Err ValueError.
+Proof. exact canonic_translated_example. Qed.
+Print Assumptions C06_canonic_translated_example.
+
+(* ---- aromatic_rings is a sub-list of sssr (was: search only) ---- *)
+Theorem C06_aromatic_rings_subset : forall g sssr l r, aromatic_rings g sssr = Ok l -> In r l -> In r sssr /\ is_arom g r = true.
+Proof. exact aromatic_rings_subset. Qed.
+Print Assumptions C06_aromatic_rings_subset.
+
+Theorem C06_aromatic_rings_length : forall g sssr l, aromatic_rings g sssr = Ok l -> (length l <= length sssr)%nat.
+Proof. exact aromatic_rings_length. Qed.
+Print Assumptions C06_aromatic_rings_length.
